@@ -19,6 +19,7 @@ import (
 
 	"github.com/Khan/genqlient/graphql"
 
+	"example.com/cg"
 	"example.com/m"
 )
 
@@ -170,20 +171,19 @@ type Result struct {
 	ArgNames  []string        ` + "`json:\"argnames,omitempty\"`" + `
 	RetNil    bool            ` + "`json:\"retnil,omitempty\"`" + `
 	RetErr    string          ` + "`json:\"reterr,omitempty\"`" + `
+	RetSame   bool            ` + "`json:\"retsame,omitempty\"`" + ` // the returned error IS the injected one
+	HasGetter bool            ` + "`json:\"hasgetter,omitempty\"`" + `
 	VarErr    string          ` + "`json:\"varerr,omitempty\"`" + `
 }
 
 type recClient struct {
 	reqs []*graphql.Request
-	fail string
+	err  error // what MakeRequest returns
 }
 
 func (c *recClient) MakeRequest(ctx context.Context, req *graphql.Request, resp *graphql.Response) error {
 	c.reqs = append(c.reqs, req)
-	if c.fail != "" {
-		return fmt.Errorf("%s", c.fail)
-	}
-	return nil
+	return c.err
 }
 
 // random value of a generated parameter type
@@ -301,7 +301,19 @@ func RunTask(t *Task) (res *Result) {
 			fn := reflect.ValueOf(op.Fn)
 			ft := fn.Type()
 			r := rand.New(rand.NewSource(t.Seed))
-			cl := &recClient{fail: t.Fail}
+			cl := &recClient{}
+			var injected error
+			cg.Client, cg.Fail = cl, nil
+			switch t.Fail {
+			case "":
+			case "getter":
+				injected = fmt.Errorf("no client obtainable")
+				cg.Fail = injected
+			default:
+				injected = fmt.Errorf("%s", t.Fail)
+				cl.err = injected
+			}
+			hasClientParam := false
 			var args []reflect.Value
 			for i := 0; i < ft.NumIn(); i++ {
 				it := ft.In(i)
@@ -309,6 +321,7 @@ func RunTask(t *Task) (res *Result) {
 				case it.Implements(reflect.TypeOf((*context.Context)(nil)).Elem()):
 					args = append(args, reflect.ValueOf(context.Background()).Convert(it))
 				case it == reflect.TypeOf((*graphql.Client)(nil)).Elem():
+					hasClientParam = true
 					args = append(args, reflect.ValueOf(graphql.Client(cl)))
 				default:
 					a := randValue(r, it, 0, Enums[t.Prog])
@@ -337,7 +350,9 @@ func RunTask(t *Task) (res *Result) {
 				last := outs[len(outs)-1]
 				if !last.IsNil() {
 					res.RetErr = last.Interface().(error).Error()
+					res.RetSame = injected != nil && last.Interface().(error) == injected
 				}
+				res.HasGetter = !hasClientParam
 			}
 		}
 	}()
